@@ -17,7 +17,11 @@
         substituted network + C01_sound + the right-hand-side identity (CC/Proofs/StateRhs.lean);
     C10_transfer, C10_transfer_unique   hence the model's outputs for x = (s − A)⁻¹ B u ARE the
         phasor solution (for a well-posed phasor network: the unique one, C01_unique).
-  Nothing of C10 is left open.
+  OPEN (stated below, not proved): C10_output_rows_statement — the theorems above speak about the Spec-side report
+  `(sampleNet …).reportOf y` read from the output VECTOR y = C x + D u; that the model's voltage and current OUTPUT ROWS
+  (`NSSM.cRowVoltage / cRowCurrent / dRowVoltage / dRowCurrent`, i.e. c_row_voltage, c_row_current, d_row_*) applied to
+  (x, u) give exactly that report is NOT a theorem: the rows are tied to the code by the generated definitions
+  (C10_gen_row_potential / _voltage / _current), the correspondence and the transfer-function oracle only.
 -/
 import CC.Proofs.StateModel
 import CC.Spec.StateSpace
@@ -317,5 +321,24 @@ theorem netRC_rlc : RLC netRC [("C", 1)] [] where
   capNodup := by simp [ValDict.keys]
   indNodup := by simp [ValDict.keys]
   notLossy := by intro b hb; simp [netRC] at hb; rcases hb with rfl | rfl | rfl <;> simp [Elem.isLossy, Elem.kind]
+
+/-- OPEN.  The OUTPUT ROWS deliver the report: for every state `x` and input `u`, the potential / voltage / current rows
+of the model (`c_row_for_potential`, `c_row_voltage`, `c_row_current` and their `d_row_*` partners) applied to `(x, u)` are
+the potential of the node / the voltage and the current of the branch in the report `(sampleNet …).reportOf y` that
+`C10_transfer`, `C12_sample_circuit` … speak about (`y = C x + D u`, `ẋ = A x + B u`).  Not proved: a change of
+`cRowVoltage` to a sum or a sign flip of the capacitor row leaves every theorem of C10–C12 intact; the rows are covered
+by `C10_gen_row_*` (model = generated code), the correspondence and the oracle. -/
+def C10_output_rows_statement : Prop :=
+  ∀ (K : Type) [Field K] [DecidableEq K] (N : Net String K) (cvals lvals : ValDict K)
+    (Ainv S Delta : List (List K)) (m : NSSM String K) (x u : List K),
+    RLC N cvals lvals → ssDelta N cvals = .ok Delta →
+    nodalStateSpaceModel N cvals lvals Ainv S = .ok m → ModelCert id N cvals lvals Ainv S Delta →
+    x.length = ssNStates N cvals lvals → u.length = ssNInputs N lvals →
+    let y := Mx.vecAdd (matVec m.mats.C x) (matVec m.mats.D u)
+    let xdot := Mx.vecAdd (matVec m.mats.A x) (matVec m.mats.B u)
+    let R := (sampleNet N cvals lvals (ssSources N lvals) u xdot).reportOf y
+    (∀ n ∈ N.nodeLabels, ∃ rc rd, m.cRowPotential n = .ok rc ∧ m.dRowPotential n = .ok rd ∧ dotL rc x + dotL rd u = R.pot n)
+    ∧ (∀ b ∈ N.branches, ∃ rc rd, m.cRowVoltage b.id = .ok rc ∧ m.dRowVoltage b.id = .ok rd ∧ dotL rc x + dotL rd u = R.v b.id)
+    ∧ (∀ b ∈ N.branches, ∃ rc rd, m.cRowCurrent b.id = .ok rc ∧ m.dRowCurrent b.id = .ok rd ∧ dotL rc x + dotL rd u = R.i b.id)
 
 end CC
